@@ -8,7 +8,10 @@ MANIFEST = {
             "entries suffices for the unchecked LUSUP allocations of its columns (given that the predicted row count dominates the actual one); it does "
             "for every pivot sequence when the diagonal is zero-free in the final column order (George & Ng: L column counts <= row-merge "
             "counts <= Cholesky(A^T A) counts, U inside Cholesky(A^T A), any size); an L-storage image accepted by the executable checker has ordered slots; the task queue "
-            "stays within n slots. Tie: the bump allocator model replayed on the request sequence of every run (hook inside the lock, with seeded "
+            "stays within n slots; the per-thread work arrays suffice: the offset and size formulas of pxgstrf_SetIWork, "
+            "p?gstrf_WorkInit, NUM_TEMPV, p?gstrf_SetRWork and the strides of p?gstrf_bmod2D are TRANSLATED from the source on every run "
+            "(tools/gen_consts.py) and proved disjoint, in range and long enough for the 1-D and 2-D updates in all four precisions. "
+            "Tie: the bump allocator model replayed on the request sequence of every run (hook inside the lock, with seeded "
             "delays while the lock is held) must give the very blocks the implementation handed out; the Gallina model of ?PresetMap is compared EXACTLY with the map_in_sup image of real runs "
             "(snapshot through the hook) and the verified checker is run on it; every LUSUP allocation of every thread is "
             "monitored against the end of its slot (an overrun inside the big array is invisible to ASan); ASan+UBSan runs of the "
@@ -187,6 +190,33 @@ def run(ctx):
         else:
             nasan += 1
     ctx.cov["correspondence"]["asan_runs_clean"] = nasan
+    # ---- work-array stress (the inputs at the case-split boundaries of c05_rwork_suffices): dense blocks with small blocking
+    # cut-offs so that the 2-D update runs on every column of a panel (the last column of the panel uses the far end of tempv[])
+    # and with both branches of NUM_TEMPV binding (2n against (maxsuper+rowblk)*w); ASan sees any access beyond the arrays
+    wcases = []
+    # (full-width panels exist only where n - i >= 12 * panel_size (SPLIT_TOP), so the (maxsuper+rowblk)*w branch binds only for
+    # maxsuper + rowblk > 26: the first tuples; the others have 2n binding or half-width panels)
+    for (w_, t_, b_, n_) in [(4, 30, 4, 60), (2, 40, 20, 30), (8, 50, 8, 110), (3, 36, 12, 45), (8, 8, 2, 24), (4, 6, 2, 16),
+                             (20, 20, 2, 64), (2, 8, 8, 40)] + ([] if ctx.quick() else
+                            [(20, 20, 20, 90), (12, 10, 6, 50), (16, 6, 2, 48), (5, 12, 7, 31), (6, 70, 10, 100), (10, 27, 3, 140)]):
+        for kind in ("dense", "arrow"):
+            A = gen.matrix(rng, kind, n_)
+            wcases.append(dict(id=30000 + len(wcases), driver="gstrf", m=A["n"], n=A["n"], colptr=A["colptr"], rowind=A["rowind"],
+                               vals=A["vals"], nrhs=0, rhs=[], nprocs=rng.choice([1, 2, 4]), colperm=0,
+                               ienv=[w_, rng.choice([1, min(t_, 4)]), t_, b_, 2, -50, -50, -30], thresh=1.0, trace=0, dumplu=0,
+                               timeout=90, kind="work-" + kind))
+    wres = drv.run_grouped(exe_a, wcases, par=max(1, vf.NCPU // 3), chunk=1)
+    nwork = 0
+    for c, r in zip(wcases, wres):
+        ctx.count(("work", c["kind"], c["n"], tuple(c["ienv"][:5]), c["nprocs"]), nontrivial=True, kind=c["kind"])
+        if r.get("crash") is not None or r.get("timeout"):
+            msg = r.get("stderr") or ""
+            ctx.violation("C05: work arrays: run with panel width %d, maxsuper %d, rowblk %d on a %s matrix of order %d failed: %s" %
+                          (c["ienv"][0], c["ienv"][2], c["ienv"][3], c["kind"], c["n"], msg[-400:]), {"case": c, "flavor": "asan"},
+                          key={"kind": "work_arrays", "what": msg[-60:]})
+        else:
+            nwork += 1
+    ctx.cov["correspondence"]["work_array_stress_runs_clean_under_asan"] = nwork
     nab = 0
     for c in cases[:12]:
         for which, pos in (("UCOL", 6), ("LSUB", 7)):
@@ -259,7 +289,10 @@ def run(ctx):
                            "column order (c05_colcount_dominated, George & Ng); qrnzcnt itself is not modelled, its output is compared exactly "
                            "with the extracted row-merge model per run; without a zero-free diagonal (the code's ZFD_PERM is off) the bound "
                            "is not guaranteed: monitored by the per-allocation slot check",
-                           "work-array layout (SetIWork/SetRWork) covered by ASan only",
+                           "work-array layout: the size and offset formulas are translated from the source and proved sufficient for the "
+                           "documented uses (c05_iwork_pieces_disjoint_in_range, c05_rwork_suffices); that the kernels index within those "
+                           "uses (segsze <= maxsuper, block_nrow <= rowblk, one supernode has at most n rows) is read off the code, "
+                           "sampled by ASan",
                            "C memory safety is a runtime property: ASan/UBSan sample it"]
     ctx.cov["trusted_base"] += ["AddressSanitizer/UBSan (gcc 12)", "event hooks"]
 
@@ -267,7 +300,7 @@ def run(ctx):
 def replay(ctx, obj):
     rp = obj.get("replay", obj)
     c = rp["case"]
-    exe = drv.build(ctx, "d", "hooks")
+    exe = drv.build(ctx, "d", "asan" if rp.get("flavor") == "asan" else "hooks")
     env = {"SuperLU_DYNAMIC_SNODE_STORE": "1"} if rp.get("mode") == "dynamic" else None
     for i in range(10):
         r = drv.run_batch(exe, [c], env=env)[0]
